@@ -21,6 +21,7 @@ from hypothesis import strategies as st
 from vlib import urlref, urlgrammar as G
 from vlib.core import Campaign, hyp_campaign
 from vlib.fuzz import fuzz_campaign
+from vlib import fuzz as F
 
 PROPERTY = "C16"
 RULE = ("is_url: URL-grammar strings and near-misses (bad TLD, single label, spaces in path, ftp/wss/custom scheme, '//', "
@@ -280,10 +281,10 @@ def campaigns(tier, seed):
                  bounds="every text of <=%d tokens over a %d-token reduced alphabet" % ((3 if quick else 4), len(TOKENS_RED)),
                  params={"length": 3 if quick else 4, "reduced": True}),
         Campaign("text-coverage-guided", fuzz_campaign("text", runs=(3000, 200000), max_len=80, dictionary=FUZZ_DICT,
-                                                       corpus=["see http://a.com/x, and [http://b.fr/y](http://c.net/z).", "[t]( https://b.fr/x\u2003» www.a.com"]), "atheris",
+                                                       corpus=["see http://a.com/x, and [http://b.fr/y](http://c.net/z).", "[t]( https://b.fr/x\u2003» www.a.com"]), F.ENGINE,
                  bounds="libFuzzer over UTF-8 texts <= 80 bytes, coverage feedback from ural, 16 independent seeds"),
         Campaign("is_url-coverage-guided", fuzz_campaign("is_url", runs=(2000, 100000), max_len=64, dictionary=FUZZ_DICT,
-                                                         corpus=["http://lemonde.fr/a b", "lemonde.fr", "//localhost:80/x"]), "atheris",
+                                                         corpus=["http://lemonde.fr/a b", "lemonde.fr", "//localhost:80/x"]), F.ENGINE,
                  bounds="libFuzzer over UTF-8 strings <= 64 bytes x 16 configurations"),
         Campaign("text-random", hyp_campaign(_text_strategy, lambda v: v, lambda c: _text_nt(c["text"]), lambda c: _text_cl(c["text"]),
                                              examples=(800, 15000)), "hypothesis", bounds="texts up to 14 tokens incl. grammar URLs"),
